@@ -403,7 +403,10 @@ theorem step_opScs {s : St} (h : Valid s) (t : Tables s) (sc : Sc) (st : CState)
         exact ⟨(step_swap s sc slot).1, (step_swap s sc slot).2, tables_swap t sc slot (lookup_isSome.mp (by rw [hl]; rfl))⟩
   have hok : noPanic [Event.res "ok"] := by simp [noPanic]
   cases hp : scsPrologue s sc st with
-  | none => exact ⟨Step.refl s, hok⟩
+  | none =>
+    refine ⟨Step.refl s, ?_⟩
+    simp only
+    split <;> simp [noPanic]
   | some p =>
     obtain ⟨s1, ev0⟩ := p
     obtain ⟨h1, hev0, t1⟩ := hpre (s1, ev0) hp
